@@ -456,6 +456,7 @@ impl<'a> DocGen<'a> {
 
     pub fn pre_content(&mut self) -> Vec<Node> {
         let nlines = self.rng.range(1, 4);
+        let mut nodes: Vec<Node> = Vec::new();
         let mut s = String::new();
         for li in 0..nlines {
             if li > 0 {
@@ -477,10 +478,25 @@ impl<'a> DocGen<'a> {
                     }
                 }
                 let w = self.tok.unique(self.rng, &self.p.clone());
-                s.push_str(&w);
+                if self.p.inline_markup && self.rng.chance(1, 6) {
+                    // a word inside an inline element (also right after a newline)
+                    if !s.is_empty() {
+                        nodes.push(Node::Raw(std::mem::take(&mut s)));
+                    }
+                    let tag = *self.rng.pick(&["em", "strong", "code", "span"]);
+                    nodes.push(El::with(tag, vec![Node::Raw(w)]).node());
+                } else {
+                    s.push_str(&w);
+                }
             }
         }
-        vec![Node::Raw(s)]
+        if !s.is_empty() {
+            nodes.push(Node::Raw(s));
+        }
+        if nodes.is_empty() {
+            nodes.push(Node::Raw("x".into()));
+        }
+        nodes
     }
 
     pub fn cell_content(&mut self, depth: usize) -> Vec<Node> {
